@@ -415,6 +415,7 @@ func (m *MinimaxAI) Analyze(ctx context.Context, p *tak.Position) ([]tak.Move, i
 	if te != nil && te.bound == exactBound {
 		base = int(te.depth)
 		ms = append(ms[:0], te.m)
+		v = te.value
 	}
 
 	var st Stats
